@@ -458,6 +458,51 @@ func ruleLookupKeys(c *Ctx, rule string) {
 					}
 				}
 			}
+			// the same search with a guard first: `if !match(col) { continue }; found = i; break` — the body only
+			// tests, records into plain locals and leaves
+			if bad {
+				search := true
+				var only func(list []ast.Stmt)
+				only = func(list []ast.Stmt) {
+					for _, st := range list {
+						switch y := st.(type) {
+						case *ast.IfStmt:
+							if y.Init != nil || !c.W.pureExpr(f, y.Cond) {
+								search = false
+							}
+							only(y.Body.List)
+							switch e := y.Else.(type) {
+							case *ast.BlockStmt:
+								only(e.List)
+							case *ast.IfStmt:
+								only([]ast.Stmt{e})
+							}
+						case *ast.BranchStmt:
+							if y.Label != nil {
+								search = false
+							}
+						case *ast.AssignStmt:
+							for _, l := range y.Lhs {
+								if _, isID := ast.Unparen(l).(*ast.Ident); !isID {
+									search = false
+								}
+							}
+							for _, r := range y.Rhs {
+								if !c.W.pureExpr(f, r) {
+									search = false
+								}
+							}
+						case *ast.EmptyStmt:
+						default:
+							search = false
+						}
+					}
+				}
+				only(rs.Body.List)
+				if search {
+					bad = false
+				}
+			}
 			// breaks nested in if statements directly in the loop body are found above; those inside inner switches are not
 			key = fn + "|select-list-loop#" + itoa(len(c.Obs))
 			c.Check(!bad, rule, fn+"|select-list-loop@"+exprKey(rs.Value), rs.Pos(), "the loop visits every select-list element", "a break leaves the loop over the select list: the elements after it are never resolved and silently read column 0")
@@ -793,6 +838,8 @@ func ruleVendoredEqualsUpstream(c *Ctx, rule string, v vendored) {
 		}
 		ut, has := uf[n]
 		switch {
+		case !has && localHelperOf(w, local, n, v.allow):
+			c.Note("%s: %s is a new function called only from the documented local edits (%s): it belongs to them", rule, n, v.file)
 		case !has:
 			c.Fail(rule, key, token.NoPos, "function %s does not exist upstream and is not a documented local edit", n)
 		case ut != lf[n]:
@@ -1758,4 +1805,59 @@ func usesIn(f *Func, n ast.Node, obj types.Object) bool {
 		return !hit
 	})
 	return hit
+}
+
+// localHelperOf: the function named n of the vendored file is new, and every call of it comes from a documented
+// local edit of that file or from another such new function (transitively): it is part of the local edits, the
+// copied functions do not depend on it.
+func localHelperOf(w *World, file, n string, allow map[string]string) bool {
+	find := func(short string) *Func {
+		for _, name := range w.SortedFuncNames() {
+			f := w.Funcs[name]
+			if strings.HasSuffix(name, "."+short) && w.Fset.Position(f.Decl.Pos()).Filename == file {
+				return f
+			}
+		}
+		return nil
+	}
+	start := find(n)
+	if start == nil {
+		return false
+	}
+	short := func(f *Func) string {
+		name := f.Name
+		if i := strings.Index(name, "."); i >= 0 {
+			name = name[i+1:]
+		}
+		return name
+	}
+	seen := map[*Func]bool{}
+	var ok func(f *Func) bool
+	ok = func(f *Func) bool {
+		if seen[f] {
+			return true
+		}
+		seen[f] = true
+		sites := w.CG().In[f]
+		if len(sites) == 0 {
+			return false
+		}
+		for _, cs := range sites {
+			c := cs.Caller
+			if w.Fset.Position(c.Decl.Pos()).Filename != file {
+				return false
+			}
+			if _, allowed := allow[short(c)]; allowed {
+				continue
+			}
+			if _, pinned := pinnedFuncs[c.Name]; pinned {
+				return false // called from a copied function
+			}
+			if !ok(c) {
+				return false
+			}
+		}
+		return true
+	}
+	return ok(start)
 }
